@@ -75,3 +75,36 @@ package common
 //@   loop range:jsonConfig.ReferFrameFiles invariant g.ReadJSONFlag
 //@        && forall(k, 0, len(jsonConfig.IgnoreFileErr), regexp_compiles(jsonConfig.IgnoreFileErr[k]) ==> has(g.IgnoreErrorFileOrFloderRegexp, jsonConfig.IgnoreFileErr[k]))
 //@ end
+
+// ---- C05 / C14: the innermost scope that contains the cursor ----
+// line from 1, column from 0. A position is inside a range when it is between its two end points (inclusive).
+//@ spec inLoc(sl int, sc int, el int, ec int, line int, col int) bool =
+//@      sl <= line && line <= el && (line == sl ==> col >= sc) && (line == el ==> col <= ec)
+// Scope tree shape relied on by FindMinScope's early exits: children are non-nil and ordered by start line
+// (the scope builder appends them in source order). ASSUMED for the tree handed in (requires), used recursively.
+//@ rec wfScope(s *ScopeInfo) bool
+//@ axiom wfScope_unfold: forall s *ScopeInfo :: wfScope(s) :: wfScope(s) && s != nil ==>
+//@      forall(k, 0, len(s.SubScopes), s.SubScopes[k] != nil && wfScope(s.SubScopes[k]))
+//@      && forall(i, 0, len(s.SubScopes), forall(j, i, len(s.SubScopes), s.SubScopes[i].Loc.StartLine <= s.SubScopes[j].Loc.StartLine))
+
+//@ func isInLocation
+//@   props C05 C14
+//@   sweep C01
+//@   pure
+//@   requires loc != nil
+//@   ensures[is-containment] result <==> inLoc(loc.StartLine, loc.StartColumn, loc.EndLine, loc.EndColumn, line, column)
+//@ end
+
+//@ func (*ScopeInfo).FindMinScope
+//@   props C05 C14
+//@   sweep C01
+//@   requires[scope-tree-shape] wfScope(scope)
+//@   ensures[nil-iff-outside] minScope == nil <==> !inLoc(scope.Loc.StartLine, scope.Loc.StartColumn, scope.Loc.EndLine, scope.Loc.EndColumn, line, column)
+//@   ensures[result-contains-cursor] minScope != nil ==> inLoc(minScope.Loc.StartLine, minScope.Loc.StartColumn, minScope.Loc.EndLine, minScope.Loc.EndColumn, line, column)
+//@   ensures[result-is-innermost] minScope != nil ==> forall(k, 0, len(minScope.SubScopes),
+//@        !inLoc(minScope.SubScopes[k].Loc.StartLine, minScope.SubScopes[k].Loc.StartColumn, minScope.SubScopes[k].Loc.EndLine, minScope.SubScopes[k].Loc.EndColumn, line, column))
+//@   ensures[result-shape] minScope != nil ==> wfScope(minScope)
+//@   loop 0 invariant rangeindex >= -1 && minScope == scope && forall(k, 0, rangeindex + 1,
+//@        !inLoc(scope.SubScopes[k].Loc.StartLine, scope.SubScopes[k].Loc.StartColumn, scope.SubScopes[k].Loc.EndLine, scope.SubScopes[k].Loc.EndColumn, line, column))
+//@   loop 0 decreases len(scope.SubScopes) - rangeindex
+//@ end
